@@ -138,6 +138,10 @@ func c01Judge(pool *sb.Pool, rec *sb.Rec, c c01Case) *failure {
 			return nil
 		}
 		key := fmt.Sprintf("site:%s/%s/%s", "proc", rep.Site, kind)
+		if kind == "stack" {
+			// one root cause: the recursive-descent parser has no nesting limit
+			key = "site:proc/stack-overflow"
+		}
 		rec.Label("died:"+kind, clip(c.Src, 300))
 		return &failure{Key: key, Detail: fmt.Sprintf("%s: worker process died (%s) on input %s", c.Why, clip(rep.Msg, 200), clip(fmt.Sprintf("%q", c.Src), 300)), Case: c}
 	}
@@ -254,11 +258,9 @@ func c01Bombs(cfg sb.Config, rec *sb.Rec, pool *sb.Pool) {
 		{"\"{$a[", "0", "]}\""}, {"function() { return ", "1", "; }"}, {"[1 => ", "1", "]"}, {"$a ? ", "1", " : 2"},
 		{"(", "", ""}, {"[", "", ""}, {"{", "", ""}, {"$a->b(", "", ""}, {"new A(", "", ""},
 	}
-	depths := []int{10, 100, 1000}
+	depths := []int{10, 100, 1000, 5000}
 	if cfg.Thorough() {
-		depths = append(depths, 10000, 100000)
-	} else {
-		depths = append(depths, 5000)
+		depths = append(depths, 20000, 100000)
 	}
 	i := 0
 	for _, b := range bombs {
